@@ -34,7 +34,7 @@ func init() {
 	harness.Register(&harness.Check{
 		ID:          "C18",
 		Level:       "model_checking",
-		Explanation: "Bounded exhaustive enumeration (E1) on the UNMODIFIED build, one goroutine, GOMAXPROCS=1: every single-field type of T3 (so every registered map/list encode routine and both generic fall-backs), by-value and pointer structs, unknown-field holders x values {empty, small, 100+ elements} x first-use orders {pointer first, value first then pointer, size first}; after one warm-up call testing.AllocsPerRun(40, ...) must be 0 for EncodedSize(ptr) and EncodeObject(sufficient buffer, nil, ptr).",
+		Explanation: "Bounded exhaustive enumeration (E1) on the UNMODIFIED build, one goroutine, GOMAXPROCS=1: every single-field type of T3 (so every registered map/list encode routine and both generic fall-backs), by-value and pointer structs, unknown-field holders x values {empty, small, 100+ elements} x first-use orders {pointer first, value first then pointer, size first}; after one warm-up call testing.AllocsPerRun(40, ...) must be 0 for EncodedSize(ptr) and EncodeObject(sufficient buffer, nil, ptr), and for rounds alternating these calls with calls on a second used type.",
 		Assumptions: []string{"go1.23.5 toolchain and its escape analysis", "allocation counts are measured with runtime.MemStats (testing.AllocsPerRun) on a quiescent single goroutine"},
 		Phases: func(tier universe.Tier) []*harness.Phase {
 			return []*harness.Phase{{
@@ -109,6 +109,20 @@ func c18Body(c *explore.C, tier universe.Tier) {
 	}
 	if a := testing.AllocsPerRun(40, func() { frugal.EncodeObject(buf, nil, ptr) }); a != 0 {
 		c.Fail(fmt.Sprintf("EncodeObject allocates %.1f objects per call after first use [%s]", a, how), &harness.Case{Property: "C18", Class: "encode-allocates", Type: s.String(), Value: v.Short(), GoType: universe.GoSource(s)})
+		return
+	}
+	// alternating with another (already used) type must not allocate either: nothing may be cached per "last type"
+	other := &universe.Named{A: 1}
+	obuf := make([]byte, 64)
+	frugal.EncodedSize(other)
+	frugal.EncodeObject(obuf, nil, other)
+	if a := testing.AllocsPerRun(40, func() {
+		frugal.EncodedSize(ptr)
+		frugal.EncodedSize(other)
+		frugal.EncodeObject(buf, nil, ptr)
+		frugal.EncodeObject(obuf, nil, other)
+	}); a != 0 {
+		c.Fail(fmt.Sprintf("alternating size/encode calls on two used types allocate %.1f objects per round [%s]", a, how), &harness.Case{Property: "C18", Class: "alternation-allocates", Type: s.String(), Value: v.Short(), GoType: universe.GoSource(s)})
 		return
 	}
 	harness.Cur.Outcome(harness.Hash64([]byte(s.String()), []byte{byte(vi), byte(order)}), s.Fields[0].Type.Kind.String())
